@@ -10,7 +10,9 @@ from gen import progs, families, nesting
 from vlib import core, progstream, known
 from props.C01 import CORPUS
 
-MODULES = ["HmsProofs.C04"]
+# C01VM: on the proved fragment the VM model computes what the specification (= the model of the tree-walking
+# interpreter) computes; audited here too because agreement of the backends rests on it
+MODULES = ["HmsProofs.C04", "HmsProofs.C01VM"]
 
 
 def judge(ctx, srcs, label):
